@@ -7,6 +7,7 @@ use crate::rng::{mix, Rng};
 use crate::scenario::*;
 use crate::trace::*;
 use crate::wire::{self, Name};
+use serde_json::json;
 
 pub struct C13;
 
@@ -38,7 +39,7 @@ impl Property for C13 {
         vec!["a search is 'stopped' from the end of the step that consumed the stop call (or reached the timeout); queries in that very step are not judged"]
     }
     fn expected_probes(&self) -> Vec<&'static str> {
-        vec!["stop-browse", "stop-hostname-other-case", "hostname-timeout", "shutdown-with-open-searches", "rebrowse", "cache-only-after-stop", "cache-only-browse", "stop-unknown"]
+        vec!["stop-browse", "stop-hostname-other-case", "hostname-timeout", "shutdown-with-open-searches", "rebrowse", "cache-only-after-stop", "cache-only-browse", "stop-unknown", "hostname-search-after-stop"]
     }
 
     fn gen(&self, seed: u64, index: u64, tier: Tier) -> Scenario {
@@ -72,6 +73,26 @@ impl Property for C13 {
         let mut p = if has4 { peer_v4(1, 50, 0) } else { PeerCfg { seg: 0, v4: None, v6: Some("fe80::1:50".into()), responder: None } };
         p.responder = Some(ResponderCfg { records: recs, delay_ms: 15, honor_known_answers: true, additionals: true, active: true, max_answers: None, skip_first: 0, conflict_probes: 0 });
         s.peers.push(p);
+        if index % 6 == 5 {
+            // "forget" worlds: one browse learns the instances (host spelled in mixed case), the peer falls silent, the
+            // browse is stopped, and a cache-only browse or a hostname search opened right afterwards must find nothing
+            let t0 = rng.below(500);
+            let ts = t0 + 1200 + rng.below(5000);
+            s.op(t0, Op::Browse { d: 0, ty: ty0.clone(), slot: 10 });
+            s.op(ts - 1 - rng.below(100), Op::PeerActive { p: 0, on: false });
+            s.op(ts, Op::StopBrowse { d: 0, ty: ty0.clone() });
+            let tq = ts + rng.below(3) * rng.below(500);
+            if rng.bool() {
+                s.op(tq, Op::BrowseCache { d: 0, ty: ty0.clone(), slot: 11 });
+            } else {
+                s.op(tq, Op::ResolveHost { d: 0, host: case_of(&mut rng, host), timeout: None, slot: 11 });
+            }
+            s.params = json!({"forget": true});
+            s.horizon_ms = tq + 20_000;
+            s.max_steps = 30_000;
+            s.sort_ops();
+            return s;
+        }
         let mut slot = 10u32;
         let mut t_last = 0u64;
         let n_act = 2 + rng.below(4);
@@ -217,7 +238,7 @@ impl Property for C13 {
                     }
                 }
                 // R5: issued right after a stop with no ingress in between => reports nothing
-                if let Some(prev) = bw.iter().find(|o| !o.cache_only && o.key == w.key && o.closed_by == "stop" && o.close_step <= w.open_step && o.close_t + 3 >= w.open_t) {
+                if let Some(prev) = bw.iter().find(|o| !o.cache_only && o.key == w.key && o.closed_by == "stop" && o.close_step <= w.open_step && (o.close_t + 3 >= w.open_t || scn.params.get("forget").is_some())) {
                     let ingress = tr.rx.iter().any(|r| r.d == d && r.step.map(|s| s > prev.close_step && s <= w.open_step).unwrap_or(false) && r.msg.as_ref().map(|m| m.is_response()).unwrap_or(false));
                     let another = bw.iter().any(|o| !o.cache_only && o.key != w.key && o.open_step < w.open_step && o.close_step >= w.open_step);
                     if !ingress && !another {
@@ -286,6 +307,23 @@ impl Property for C13 {
             j.judgements += 1;
             if !matches!(evs[0].ev, EvKind::HStarted(_)) {
                 j.fail("C13-R1", format!("first event on the channel of resolve_hostname({}) at t={} is {:?}", w.key, w.open_t, evs[0].ev));
+            }
+            // R5 (forget worlds): the only search before this one was a browse that has been stopped, nothing was received
+            // since: the records cached for it - the host's addresses included - are forgotten
+            if scn.params.get("forget").is_some() {
+                if let Some(prev) = bw.iter().find(|o| !o.cache_only && o.closed_by == "stop" && o.close_step <= w.open_step) {
+                    let ingress = tr.rx.iter().any(|r| r.d == d && r.step.map(|s| s > prev.close_step).unwrap_or(false) && r.msg.as_ref().map(|m| m.is_response()).unwrap_or(false));
+                    if !ingress {
+                        j.probe("hostname-search-after-stop");
+                        j.judgements += 1;
+                        if tr.events.iter().any(|e| e.d == d && e.slot == prev.slot && matches!(e.ev, EvKind::Resolved(..))) {
+                            j.nontrivial = true;
+                        }
+                        if let Some(e) = evs.iter().find(|e| matches!(e.ev, EvKind::HFound(..))) {
+                            j.fail("C13-R5", format!("stop_browse({}) at t={} should forget the records cached for it, but resolve_hostname({}) at t={} still reports {:?} although nothing was received since", prev.key, prev.close_t, w.key, w.open_t, e.ev));
+                        }
+                    }
+                }
             }
             if w.closed_by.is_empty() || w.closed_by == "replaced" {
                 continue;
